@@ -142,7 +142,11 @@ class DetachedServer(ServerBase):
 
             elif msg == RuntimeMessage.CANCEL:
                 request = cast(uuid.UUID, payload)
-                self.handle_cancel_comp_task(request)
+                if request in self.clients[conn]:
+                    self.handle_cancel_comp_task(request)
+                else:
+                    # Unknown, finished or foreign task: nothing to cancel
+                    self.outgoing.put((conn, RuntimeMessage.CANCEL, None))
 
             else:
                 raise RuntimeError(f'Unexpected message type: {msg.name}')
